@@ -19,6 +19,92 @@ def time_catalogue():
     return Catalogue("c15-time", [Shape("M", [F("d", 1, "message", msg="Duration"), F("t", 2, "message", msg="Timestamp")])], [STD_ENUM])
 
 
+def positions_catalogue():
+    m = Shape("P", [
+        F("rt", 1, "message", "repeated", msg="Timestamp"), F("rd", 2, "message", "repeated", msg="Duration"),
+        F("ot", 3, "message", "optional", msg="Timestamp"), F("od", 4, "message", "optional", msg="Duration"),
+        F("gt", 5, "message", group="g", msg="Timestamp"), F("gd", 6, "message", group="g", msg="Duration"),
+        F("md", 7, "message", "map", key="string", msg="Duration"), F("mt", 8, "message", "map", key="int32", msg="Timestamp")])  # fmt: skip
+    return Catalogue("c15-positions", [m], [STD_ENUM])
+
+
+def positions_witness(env, td, dt):
+    """native only: the same span / instant in repeated, optional, oneof and map-value position, through both codecs and the reference"""
+    import json
+
+    from google.protobuf import json_format
+
+    cat = positions_catalogue()
+    mod = shapes.build_bp(cat)
+    ref = shapes.build_ref(cat)["P"]
+    utc = dt.astimezone(_dt.timezone.utc)
+    cases = {
+        "repeated": dict(rt=[dt, dt], rd=[td, -td]),
+        "optional": dict(ot=dt, od=td),
+        "oneof-timestamp": dict(gt=dt),
+        "oneof-duration": dict(gd=td),
+        "map-value": dict(md={"k": td, "": -td}, mt={0: dt, -7: dt}),
+    }
+    for pos, kw in cases.items():
+        m = mod.P(**kw)
+        data = bytes(m)
+        back = mod.P().parse(data)
+        env.check("witness:positions-binary-round-trip", back == m and bytes(back) == data and len(m) == len(data), pos)
+        r = ref.FromString(data)
+        got = dict(
+            rt=[x.ToDatetime(tzinfo=_dt.timezone.utc) for x in r.rt], rd=[x.ToTimedelta() for x in r.rd],
+            ot=r.ot.ToDatetime(tzinfo=_dt.timezone.utc) if r.HasField("ot") else None, od=r.od.ToTimedelta() if r.HasField("od") else None,
+            g=r.WhichOneof("g"), md={k: v.ToTimedelta() for k, v in r.md.items()}, mt={k: v.ToDatetime(tzinfo=_dt.timezone.utc) for k, v in r.mt.items()},
+        )  # fmt: skip
+        want = dict(rt=[utc] * len(kw.get("rt", [])), rd=kw.get("rd", []), ot=utc if "ot" in kw else None, od=kw.get("od"),
+                    g="gt" if "gt" in kw else "gd" if "gd" in kw else None, md=kw.get("md", {}), mt={k: utc for k in kw.get("mt", {})})  # fmt: skip
+        if "gt" in kw:
+            want_ok = got == want and r.gt.ToDatetime(tzinfo=_dt.timezone.utc) == utc
+        elif "gd" in kw:
+            want_ok = got == want and r.gd.ToTimedelta() == td
+        else:
+            want_ok = got == want
+        env.check("witness:positions-reference-decodes-same", want_ok, pos)
+        env.check("witness:positions-reference-bytes-decode", mod.P().parse(r.SerializeToString()) == m, pos)
+        label = "-map-value" if pos == "map-value" else ""
+        try:
+            d = m.to_dict()
+            json.dumps(d)
+            j = mod.P().from_dict(d)
+            env.check("witness:positions-json-round-trip" + label, j == m, pos + " " + repr(d)[:300])
+        except Exception as e:
+            env.check("witness:positions-json-round-trip" + label, False, pos + " " + repr(e)[:300])
+        try:
+            rj = json_format.Parse(m.to_json(), ref())
+            env.check("witness:positions-reference-reads-json" + label, rj.SerializeToString(deterministic=True) == r.SerializeToString(deterministic=True), pos + " " + m.to_json()[:300])
+        except Exception as e:
+            env.check("witness:positions-reference-reads-json" + label, False, pos + " " + repr(e)[:300])
+        try:
+            bj = mod.P().from_json(json_format.MessageToJson(r))
+            env.check("witness:positions-reads-reference-json" + label, bj == m, pos + " " + json_format.MessageToJson(r)[:300].replace("\n", " "))
+        except Exception as e:
+            env.check("witness:positions-reads-reference-json" + label, False, pos + " " + repr(e)[:300])
+
+
+def h_positions(env):
+    """solver-chosen span and instant (LIA) + boundary constants, placed in every field position (witness level)"""
+    i = env.choose("td", len(BOUNDARY_TD) + 1)
+    us = env.zint("td_us", -DUR_MAX_US, DUR_MAX_US) if i == len(BOUNDARY_TD) else env.zint("td_us", BOUNDARY_TD[i], BOUNDARY_TD[i])
+    j = env.choose("ts", len(BOUNDARY_TS) + 1)
+    if j == len(BOUNDARY_TS):
+        off = env.zint("offset_min", -1439, 1439)
+        lus = env.zint("local_us", 0, MAX_US)
+        inst = lus - off * 60 * US_PER_SEC
+        env.assume(sym.sym_and(inst >= 0, inst <= MAX_US))
+    else:
+        lus, off = env.zint("local_us", BOUNDARY_TS[j][0], BOUNDARY_TS[j][0]), env.zint("offset_min", BOUNDARY_TS[j][1], BOUNDARY_TS[j][1])
+        inst = lus - off * 60 * US_PER_SEC
+        env.assume(sym.sym_and(inst >= 0, inst <= MAX_US))
+    env.check("reached", True)
+    if not env.sym:
+        positions_witness(env, mk_timedelta(env, us), mk_datetime(env, lus, off))
+
+
 def mk_timedelta(env, us):
     return SymTimedelta(us) if env.sym else _dt.timedelta(microseconds=us)
 
@@ -169,6 +255,7 @@ def units(tier):
         ("timestamp[aware, any offset]", h_timestamp, {"aware": True}),
         ("timestamp[utc]", h_timestamp, {"aware": False}),
         ("timestamp[boundaries]", h_timestamp_boundaries, {}),
+        ("positions[repeated, optional, oneof, map value]", h_positions, {}),
     ]
 
 
